@@ -11,7 +11,7 @@
 (***************************************************************************)
 EXTENDS RulesAlpha, TLC, Json, VerifParams
 
-CONSTANTS Alphabet, MaxLen, Lim, Reasons, Prefix
+CONSTANTS Alphabet, MaxLen, Lim, Reasons, Prefix, Filter(_, _)
 
 VARIABLES si, sa, hist, div
 
@@ -31,6 +31,7 @@ Leaf == Status(si) # "ok" \/ Len(hist) >= MaxLen
 
 Next == /\ ~Leaf
         /\ \E i \in 1..Len(Alphabet) :
+             /\ Filter(si, Alphabet[i])
              /\ si' = Step(si, Alphabet[i])
              /\ sa' = Step(sa, Alphabet[i])
              /\ si'.st = "rejected" => si'.why \in Reasons
